@@ -27,39 +27,46 @@ of the resume bitfield, names a piece whose bytes on disk are the true content.
 Hypotheses inside `Sound`: `CfgWF` (a piece without blocks has no data section) and `BadWF` (the disk
 model `bad` only names real data sections) — both hold for the driver's `initSt`. -/
 theorem bits_sound (s : St) (p : Parked) (kn : Nat → Bool) (op : Op) (hop : op.isMutate = false)
-    (h : Sound s) :
+    (h : Sound s) (hw : WrOK s) :
     BitsSound (step s p kn op).1.st ∧ PersistedSound (step s p kn op).1.st ∧ Sound (step s p kn op).1.st := by
-  have h' := step_sound s p kn op hop h
+  have h' := step_sound s p kn op hop h hw
   exact ⟨(bitsSound_iff _).2 h'.bits, h'.pers, h'⟩
 
 /-- **bits_sound_run.** From a freshly added torrent, after any history of events without external file
 changes, with any choices of the implementation adopted by `reconcile`/`reconcileIdl`. -/
-theorem bits_sound_run (s0 : St) (h0 : InitLike s0) (evs : List Ev) (hop : ∀ e ∈ evs, e.op.isMutate = false) :
+theorem bits_sound_run (s0 : St) (h0 : InitLike s0) (hw : NoWritten s0) (evs : List Ev)
+    (hop : ∀ e ∈ evs, e.op.isMutate = false) :
     BitsSound (drun (s0, none) evs).1 ∧ PersistedSound (drun (s0, none) evs).1 := by
-  have h := drun_sound evs (s0, none) hop h0.sound
+  have h := drun_sound evs (s0, none) hop h0.sound (h0.wrOK hw)
   exact ⟨(bitsSound_iff _).2 h.bits, h.pers⟩
 
 /-- **disk_never_regresses.** No event other than an external change of the files makes a piece that was
 fine on disk bad: the client never overwrites verified data with anything but verified data. -/
 theorem disk_never_regresses (s : St) (p : Parked) (kn : Nat → Bool) (op : Op) (hop : op.isMutate = false)
-    (h : Sound0 s) (i : Nat) (hi : s.diskOKi i = true) : (step s p kn op).1.st.diskOKi i = true :=
-  diskOKi_mono (step_adv s p kn op hop h).cfg (step_adv s p kn op hop h).bad i hi
+    (h : Sound0 s) (i : Nat) (hi : s.diskOKi i = true) : (step s p kn op).1.st.diskOKi i = true := by
+  have h1 := handle_adv { s with sto := [], mayStart := [], closedDl := [], mayStartI := false } p kn op hop
+  have hi1 : (handle { s with sto := [], mayStart := [], closedDl := [], mayStartI := false } p kn op).1.1.diskOKi i = true :=
+    diskOKi_mono h1.cfg h1.bad i hi
+  rw [step_st]
+  split
+  · exact diskOKi_of_bad_sub (by simp) (fun x hx => runWorkers_bad_sub 12 _ x (deliverParked_bad_sub _ _ x hx)) i hi1
+  · exact diskOKi_of_bad_sub (by simp) (runWorkers_bad_sub 12 _) i hi1
 
 /-- **bits_sound_with_mutations.** Files may be deleted or restored (not corrupted) behind the stopped
 client's back at any point of the history: whenever the torrent is then downloading or seeding, every
 set bit is again backed by verified bytes — missing files are found by the allocator and re-checked or
 re-downloaded, never trusted.  `drunAdmissible`: the picker's choices were accepted by `reconcile`. -/
-theorem bits_sound_with_mutations (s0 : St) (h0 : InitLike s0) (evs : List Ev)
+theorem bits_sound_with_mutations (s0 : St) (h0 : InitLike s0) (hw : NoWritten s0) (evs : List Ev)
     (hop : ∀ e ∈ evs, e.op.isCorrupt = false) (ha : drunAdmissible (s0, none) evs)
     (hs : (drun (s0, none) evs).1.status = .downloading ∨ (drun (s0, none) evs).1.status = .seeding) :
     BitsSound (drun (s0, none) evs).1 :=
-  bits_sound_of_running (drun_wsound evs (s0, none) hop h0.wsound) (drun_life evs (s0, none) h0.life ha) hs
+  bits_sound_of_running (drun_wsound evs (s0, none) hop h0.wsound (h0.wrOK hw)) (drun_life evs (s0, none) h0.life ha) hs
 
 /-- **bits_weakly_sound.** In every status (also stopped, allocating, verifying) after such a history: a
 set bit whose piece is not fine on disk is bad only inside files that are currently missing. -/
-theorem bits_weakly_sound (s0 : St) (h0 : InitLike s0) (evs : List Ev) (hop : ∀ e ∈ evs, e.op.isCorrupt = false) :
-    WS (drun (s0, none) evs).1 :=
-  (drun_wsound evs (s0, none) hop h0.wsound).ws
+theorem bits_weakly_sound (s0 : St) (h0 : InitLike s0) (hw : NoWritten s0) (evs : List Ev)
+    (hop : ∀ e ∈ evs, e.op.isCorrupt = false) : WS (drun (s0, none) evs).1 :=
+  (drun_wsound evs (s0, none) hop h0.wsound (h0.wrOK hw)).ws
 
 /-- **writes_verified.** The storage image changes through the piece writer only for a job whose hash
 matched, of the current generation of pieces, and then exactly that piece becomes (and is) good;
@@ -112,29 +119,30 @@ for any `i`), the two workers that do (`writerRun`, `handleVerificationDone`) na
 the disk never gets worse inside a step.  The statement is about the disk, not about the bit: the bit of
 a piece announced in a step can be gone at the end of the same step (example below: the completion stops
 the torrent and a pending verify drops the bitfield). -/
-theorem reported_only_verified_step (s : St) (p : Parked) (kn : Nat → Bool) (op : Op) (h : Sound0 s) :
+theorem reported_only_verified_step (s : St) (p : Parked) (kn : Nat → Bool) (op : Op) (h : Sound0 s) (hw : WrOK s) :
     ∀ o ∈ (step s p kn op).1.outs, ∀ i, o.msg = haveMsg i → (step s p kn op).1.st.diskOKi i = true :=
-  step_havesOK s p kn op h
+  step_havesOK s p kn op h hw
 
 /-- … and while the bitfield is sound (every non-mutate step from a `Sound` state, `bits_sound`) the
 announced piece and the bitfield agree with the disk together: the piece is verified on disk, and so is
 every piece whose bit is set. -/
 theorem reported_only_verified_step_sound (s : St) (p : Parked) (kn : Nat → Bool) (op : Op)
-    (hop : op.isMutate = false) (h : Sound s) :
+    (hop : op.isMutate = false) (h : Sound s) (hw : WrOK s) :
     (∀ o ∈ (step s p kn op).1.outs, ∀ i, o.msg = haveMsg i → (step s p kn op).1.st.diskOKi i = true) ∧
     BitsSound (step s p kn op).1.st :=
-  ⟨step_havesOK s p kn op h.zero, (bits_sound s p kn op hop h).1⟩
+  ⟨step_havesOK s p kn op h.zero hw, (bits_sound s p kn op hop h hw).1⟩
 
 /-- **reported_only_verified_run.** Along every history from a freshly added torrent — any ops (deletions,
 corruptions and restorations of files included), any choices of the implementation adopted by
 `reconcile`/`reconcileIdl`, admissible or not — every `have:i` sent in the next step names a piece that is
 verified on disk when the step ends, and still is after the implementation's choices are adopted. -/
-theorem reported_only_verified_run (s0 : St) (h0 : InitLike s0) (evs : List Ev) (e : Ev) :
+theorem reported_only_verified_run (s0 : St) (h0 : InitLike s0) (hw : NoWritten s0) (evs : List Ev) (e : Ev) :
     ∀ o ∈ (step (drun (s0, none) evs).1 (drun (s0, none) evs).2 e.known e.op).1.outs, ∀ i, o.msg = haveMsg i →
       (step (drun (s0, none) evs).1 (drun (s0, none) evs).2 e.known e.op).1.st.diskOKi i = true ∧
       (dstep (drun (s0, none) evs) e).1.diskOKi i = true := by
   intro o ho i hi
-  have h := step_havesOK _ _ e.known e.op (drun_sound0 evs (s0, none) h0.sound.zero) o ho i hi
+  have h := step_havesOK _ _ e.known e.op (drun_sound0 evs (s0, none) h0.sound.zero) (drun_wrOK evs (s0, none) (h0.wrOK hw))
+    o ho i hi
   refine ⟨h, ?_⟩
   unfold dstep
   exact diskOKi_mono ((reconcile_adv _ _).trans (reconcileIdl_adv _ _)).cfg ((reconcile_adv _ _).trans (reconcileIdl_adv _ _)).bad i h
@@ -145,11 +153,11 @@ never be verified.  From a freshly added torrent, after **any** history — ever
 restored or corrupted behind the client's back, any adopted choices, admissible or not —: its bit is
 not set in the bitfield nor in the resume record, the torrent is not complete and does not report
 `Seeding`. -/
-theorem bad_padding_piece_never_done (s0 : St) (h0 : InitLike s0) (evs : List Ev) (i : Nat)
+theorem bad_padding_piece_never_done (s0 : St) (h0 : InitLike s0) (hw : NoWritten s0) (evs : List Ev) (i : Nat)
     (hi : i < s0.cfg.n) (hbad : s0.cfg.padOK i = false) :
     bitOf (drun (s0, none) evs).1.bf i = false ∧ bitOf (drun (s0, none) evs).1.persisted i = false ∧
     (drun (s0, none) evs).1.completed = false ∧ (drun (s0, none) evs).1.status ≠ .seeding := by
-  have h := drun_padInv evs (s0, none) h0.padInv
+  have h := drun_padInv evs (s0, none) h0.padInv (h0.wrOK hw)
   have hu : Unver (drun (s0, none) evs).1.cfg i := by rw [drun_cfg]; exact ⟨hi, hbad⟩
   have hc := h.nc ⟨i, hu⟩
   refine ⟨h.nobit i hu, h.nobitP i hu, hc, ?_⟩
@@ -160,17 +168,17 @@ theorem bad_padding_piece_never_done (s0 : St) (h0 : InitLike s0) (evs : List Ev
 
 /-- The step form, from any state that satisfies the invariant (`PadInv`: `CfgWF`, `BadWF`, one bit per
 piece, no bit for a piece that can never be verified, not complete). -/
-theorem bad_padding_piece_never_done_step (s : St) (p : Parked) (kn : Nat → Bool) (op : Op) (h : PadInv s) :
-    PadInv (step s p kn op).1.st := step_padInv s p kn op h
+theorem bad_padding_piece_never_done_step (s : St) (p : Parked) (kn : Nat → Bool) (op : Op) (h : PadInv s)
+    (hw : WrOK s) : PadInv (step s p kn op).1.st := step_padInv s p kn op h hw
 
 /-- Every set bit, in every state of every history (mutations included), names a piece whose recorded
 hash is the hash of its true content. -/
-theorem bits_only_for_hashable_pieces (s0 : St) (h0 : InitLike s0) (evs : List Ev) (i : Nat)
+theorem bits_only_for_hashable_pieces (s0 : St) (h0 : InitLike s0) (hw : NoWritten s0) (evs : List Ev) (i : Nat)
     (hi : i < s0.cfg.n) (hb : bitOf (drun (s0, none) evs).1.bf i = true) : s0.cfg.padOK i = true := by
   cases hp : s0.cfg.padOK i with
   | true => rfl
   | false =>
-    have := (bad_padding_piece_never_done s0 h0 evs i hi hp).1
+    have := (bad_padding_piece_never_done s0 h0 hw evs i hi hp).1
     rw [hb] at this; cases this
 
 /-! Non-vacuity: a one-piece torrent, an honest peer, the piece is written and the bit is set. -/
@@ -201,6 +209,25 @@ private theorem s1_sound0 : Sound0 s1 := by
     rw [show s1.cfg = c1 from rfl, this] at hsc
     cases hsc
 
+/-- **Why the run theorems ask for `NoWritten s0`** (and the step theorems for `WrOK s`).  Since the model has held
+write results (`WriteJob.written`, `gate writeDone`: the piece writer's storage calls have returned, its result
+is delivered later) a `written` job is *trusted*: its delivery sets the bit without any storage call.  `InitLike`
+does not exclude an initial state with such a job claiming the next generation of pieces: one `start` — fresh
+allocation, generation 1, the "result" is delivered as current — and the bit of piece 0 is set, the torrent seeds,
+with nothing on disk.  (No torrent object is created with a write in flight; along every history from a state
+without one the invariant `WrOK` — a held, current result has its bytes on disk — holds: `drun_wrOK`.) -/
+theorem held_result_trusted_counterexample :
+    InitLike { s1 with writing := some { piece := 0, src := 0, good := true, gen := 1, written := true } } ∧
+    ¬ NoWritten { s1 with writing := some { piece := 0, src := 0, good := true, gen := 1, written := true } } ∧
+    (drun ({ s1 with writing := some { piece := 0, src := 0, good := true, gen := 1, written := true } }, none)
+      [⟨.start, kn [], [], []⟩]).1.bf = some [true] ∧
+    (drun ({ s1 with writing := some { piece := 0, src := 0, good := true, gen := 1, written := true } }, none)
+      [⟨.start, kn [], [], []⟩]).1.diskOK = [false] ∧
+    (drun ({ s1 with writing := some { piece := 0, src := 0, good := true, gen := 1, written := true } }, none)
+      [⟨.start, kn [], [], []⟩]).1.status = .seeding :=
+  ⟨⟨s1_sound0.cfg, s1_sound0.bad, rfl, rfl, rfl, rfl, rfl, rfl, rfl, rfl, rfl, rfl, rfl, rfl, rfl, rfl, rfl⟩,
+   fun h => absurd (h _ rfl).1 (by decide), by decide, by decide, by decide⟩
+
 /-! `reported_only_verified_step` is not vacuous: with a second peer that lacks the piece, the step in
 which the write completes sends it `have:0`, and piece 0 is then verified on disk. -/
 private def evs2 : List Ev := [
@@ -220,6 +247,7 @@ example : ∀ o ∈ (step (drun (s1, none) evs2).1 none (kn [1, 2]) (.msg 1 (.pi
     ∀ i, o.msg = haveMsg i →
       (step (drun (s1, none) evs2).1 none (kn [1, 2]) (.msg 1 (.piece 0 0 16384 true))).1.st.diskOKi i = true :=
   reported_only_verified_step _ _ _ _ (drun_sound0 evs2 (s1, none) s1_sound0)
+    (drun_wrOK evs2 (s1, none) ⟨fun w a => (by cases a), fun w a => (by cases a), fun _ => ⟨rfl, rfl, rfl, rfl, rfl⟩⟩)
 
 /-! The step form speaks of the disk and not of the bit.  Before the fix of finding C04-F4 there was a step
 that sends `have:0` and ends without a bitfield: stop-after-download, a verify issued while nothing was on
@@ -290,8 +318,8 @@ private theorem s2_initLike : InitLike (s2 false) := by
     cases hsc
 
 example : ∀ evs, bitOf (drun (s2 false, none) evs).1.bf 1 = false ∧ (drun (s2 false, none) evs).1.status ≠ .seeding :=
-  fun evs => ⟨(bad_padding_piece_never_done (s2 false) s2_initLike evs 1 (by decide) (by decide)).1,
-    (bad_padding_piece_never_done (s2 false) s2_initLike evs 1 (by decide) (by decide)).2.2.2⟩
+  fun evs => ⟨(bad_padding_piece_never_done (s2 false) s2_initLike (noWritten_of_none rfl) evs 1 (by decide) (by decide)).1,
+    (bad_padding_piece_never_done (s2 false) s2_initLike (noWritten_of_none rfl) evs 1 (by decide) (by decide)).2.2.2⟩
 end Example
 
 end Rain.Props.C01Loop
